@@ -48,59 +48,74 @@ Global Instance dout_eq_dec : EqDecision dout. Proof. solve_decision. Defined.
 Definition request := (Z * Z * Z)%type.
 Definition req_of (c : command) : request := (c_ns c, o_name (c_target c), c_action c).
 
-(* a worker holds nothing, holds a delivered Command (before its Delete call), or
-   has deleted it successfully (before the enqueue) *)
-Inductive wst := WIdle | WGot | WDeleted.
+(* A delivery (one object copy handed to a command worker by the informer: add
+   notification, relist, restart) is idle / done, is held before its n-th retry's Delete
+   call (n = failures so far = workqueue.NumRequeues), or has deleted the Command
+   successfully and is about to enqueue.  The index of a delivery stands for the object
+   copy: the failure count belongs to it, as in client-go's rate limiter. *)
+Inductive wst := WIdle | WGot (n : nat) | WDeleted.
 Global Instance wst_eq_dec : EqDecision wst. Proof. solve_decision. Defined.
 
 Record sys := mkSys {
   present : bool;                (* the Command object exists in the API server *)
-  ws : gmap nat wst;             (* worker states (absent = idle) *)
+  ws : gmap nat wst;             (* delivery states (absent = idle) *)
   enq : list request;            (* requests enqueued to the controller's work queue *)
-  holder : option nat;           (* the worker whose Delete succeeded *)
+  holder : option nat;           (* the delivery whose Delete succeeded *)
   log : list dout;               (* answers of the Delete calls, in linearisation order *)
-  retries : nat                  (* re-deliveries asked for (AddRateLimited) *)
+  seen : list nat;               (* number of enqueued requests at the moment of each Delete call *)
+  retries : nat;                 (* re-deliveries asked for (AddRateLimited) *)
+  drops : nat                    (* deliveries given up (handleCommandErr: Forget) *)
 }.
 
 Definition wget (s : sys) (w : nat) : wst := default WIdle (ws s !! w).
 Definition wset (s : sys) (w : nat) (x : wst) : gmap nat wst := <[w := x]> (ws s).
 
-Definition init (b : bool) : sys := mkSys b ∅ [] None [] 0.
+Definition init (b : bool) : sys := mkSys b ∅ [] None [] [] 0 0.
+
+(* handleCommandErr: retry while maxRequeueNum = -1 or NumRequeues < maxRequeueNum
+   (the job controller always retries: mx = -1) *)
+Definition budget (mx : Z) (n : nat) : bool := bool_decide (mx = -1) || bool_decide (Z.of_nat n < mx).
 
 Inductive cev :=
-| CDeliver (w : nat)             (* a (re-)delivery reaches worker w *)
-| CDelete (w : nat) (o : dout)   (* w's Delete call is answered o *)
-| CEnqueue (w : nat).            (* w enqueues the request *)
+| CDeliver (w : nat)             (* the informer hands object copy w to the command queue *)
+| CDelete (w : nat) (o : dout)   (* the Delete call made for w is answered o *)
+| CEnqueue (w : nat).            (* the worker holding w enqueues the request *)
 
 (* one atomic step; events that the worker's program or the API-server oracle do
    not allow leave the state unchanged *)
-Definition cstep (c : command) (s : sys) (e : cev) : sys :=
+Definition cstep (mx : Z) (c : command) (s : sys) (e : cev) : sys :=
   match e with
   | CDeliver w =>
       match wget s w with
-      | WIdle => mkSys (present s) (wset s w WGot) (enq s) (holder s) (log s) (retries s)
+      | WIdle => mkSys (present s) (wset s w (WGot 0)) (enq s) (holder s) (log s) (seen s) (retries s) (drops s)
       | _ => s
       end
   | CDelete w o =>
       match wget s w with
-      | WGot =>
+      | WGot n =>
+        let sn := seen s ++ [length (enq s)] in
+        (* an error: retried (same object, one more failure) or given up *)
+        let failed (p : bool) (o : dout) :=
+          if budget mx n
+          then mkSys p (wset s w (WGot (S n))) (enq s) (holder s) (log s ++ [o]) sn (S (retries s)) (drops s)
+          else mkSys p (wset s w WIdle) (enq s) (holder s) (log s ++ [o]) sn (retries s) (S (drops s)) in
         match o, present s with
-        | DOk, true => mkSys false (wset s w WDeleted) (enq s) (Some w) (log s ++ [DOk]) (retries s)
-        | DNotFound, false => mkSys false (wset s w WIdle) (enq s) (holder s) (log s ++ [DNotFound]) (retries s)
-        | DErr, p => mkSys p (wset s w WIdle) (enq s) (holder s) (log s ++ [DErr]) (S (retries s))
-        | DErrApplied, _ => mkSys false (wset s w WIdle) (enq s) (holder s) (log s ++ [DErrApplied]) (S (retries s))
+        | DOk, true => mkSys false (wset s w WDeleted) (enq s) (Some w) (log s ++ [DOk]) sn (retries s) (drops s)
+        | DNotFound, false => mkSys false (wset s w WIdle) (enq s) (holder s) (log s ++ [DNotFound]) sn (retries s) (drops s)
+        | DErr, p => failed p DErr
+        | DErrApplied, _ => failed false DErrApplied
         | _, _ => s
         end
       | _ => s
       end
   | CEnqueue w =>
       match wget s w with
-      | WDeleted => mkSys (present s) (wset s w WIdle) (enq s ++ [req_of c]) (holder s) (log s) (retries s)
+      | WDeleted => mkSys (present s) (wset s w WIdle) (enq s ++ [req_of c]) (holder s) (log s) (seen s) (retries s) (drops s)
       | _ => s
       end
   end.
 
-Definition crun (c : command) (b : bool) (evs : list cev) : sys := fold_left (cstep c) evs (init b).
+Definition crun (mx : Z) (c : command) (b : bool) (evs : list cev) : sys := fold_left (cstep mx c) evs (init b).
 
 Definition quiescent (s : sys) : Prop := forall w, wget s w = WIdle.
 
@@ -110,25 +125,30 @@ Definition quiescent (s : sys) : Prop := forall w, wget s w = WIdle.
 Definition answer (f : Z) (p : bool) : dout :=
   if f =? 1 then DErr else if f =? 2 then DErrApplied else if p then DOk else DNotFound.
 
-(* [pending] deliveries, each processed to completion by one worker; an error asks
-   for a re-delivery (unlimited retries) *)
-Fixpoint seq_run (c : command) (fuel : nat) (pending : nat) (sched : list Z) (s : sys) : option sys :=
-  match pending with
-  | O => Some s
-  | S pending' =>
+(* one worker and the FIFO command queue: the head delivery's Delete is called; on
+   success the request is enqueued; a retried delivery goes to the tail.  Returns the
+   unused part of the fault schedule. *)
+Fixpoint seq_run (mx : Z) (c : command) (fuel : nat) (queue : list nat) (sched : list Z) (s : sys)
+  : option (sys * list Z) :=
+  match queue with
+  | [] => Some (s, sched)
+  | d :: rest =>
     match fuel with
     | O => None                                  (* fuel exhausted: reported as an error *)
     | S fuel' =>
-      let f := hd 0 sched in
-      let o := answer f (present s) in
-      let s1 := cstep c (cstep c s (CDeliver 0)) (CDelete 0 o) in
-      match o with
-      | DOk => seq_run c fuel' pending' (tl sched) (cstep c s1 (CEnqueue 0))
-      | DNotFound => seq_run c fuel' pending' (tl sched) s1
-      | _ => seq_run c fuel' (S pending') (tl sched) s1
+      let o := answer (hd 0 sched) (present s) in
+      let s2 := cstep mx c (cstep mx c s (CDelete d o)) (CEnqueue d) in
+      match wget s2 d with
+      | WGot _ => seq_run mx c fuel' (rest ++ [d]) (tl sched) s2
+      | _ => seq_run mx c fuel' rest (tl sched) s2
       end
     end
   end.
+
+(* a batch of n fresh deliveries (informer add / relist / controller restart), drained *)
+Definition seq_phase (mx : Z) (c : command) (n : nat) (sched : list Z) (s : sys) : option (sys * list Z) :=
+  let ids := seq 0 n in
+  seq_run mx c (n + length sched + 1) ids sched (fold_left (fun s d => cstep mx c s (CDeliver d)) ids s).
 
 (* ---------- CLI against a faulty API server (oracle = explicit answer script) ---------- *)
 (* answer to the GET of the target *)
